@@ -141,12 +141,20 @@ func (w *World) opCreateApp() {
 	c := w.C
 	a := &App{Kind: pick(c, w.prof.Kinds), NS: pick(c, []string{"ns1", "ns2"}), Policy: pick(c, w.prof.Policies)}
 	a.Name = fmt.Sprintf("%s%d", map[string]string{"sts": "web", "dp": "api", "tapp": "job", "foo": "foo", "bare": "solo"}[a.Kind], len(w.apps))
+	if w.prop == "C11" {
+		// DNS-1123 edge shapes: inner dashes, names ending in -<n>, digits first, long names
+		shapes := []string{"%s", "a-1-%s", "x-y-2-%s", "0%s", "%s-9", "n234567890123456789012345678901234567890-%s"}
+		a.Name = fmt.Sprintf(pick(c, shapes), a.Name)
+	}
 	a.Replicas = c.Range(1, 3)
 	if a.Kind == "bare" {
 		a.Replicas = 1
 	}
 	if a.Kind == "dp" && w.prof.Pools && c.Prob(1, 3) {
 		a.Pool = pick(c, []string{"blue", "green"})
+		if w.prop == "C11" && c.Prob(1, 6) {
+			a.Pool = pick(c, []string{"p-1", "a_b"}) // "any pool name": an annotation value is free text
+		}
 	}
 	if w.prof.Ranges && (c.Prob(1, 3) || w.prop == "C08" && c.Prob(3, 4)) && !(a.Kind == "dp" && a.effPolicy() != "") {
 		a.Ranges = w.genRanges()
